@@ -77,4 +77,34 @@ theorem slab_record_content (f : Slab.SFile) (r : List Word) (h : r ∈ Slab.row
   obtain ⟨c, hc, rfl⟩ := hr
   exact ⟨s, hs, c, hc, rfl⟩
 
+
+/-! ### cloud/rain files -/
+
+/-- the records tile the file: header, then per step the time record followed by one record per
+(layer, variable), in that order -/
+theorem cloud_rain_tiles (f : CloudRain.CFile) :
+    parseRecords (CloudRain.encode f).length (CloudRain.encode f) = some (CloudRain.records f) :=
+  parse_encode (CloudRain.records f) _ (Nat.le_refl _)
+
+/-- the header record declares the grid the data records are cut to, and the number of records is
+1 + steps · (1 + slabs per step) -/
+theorem cloud_rain_counts (f : CloudRain.CFile) (m : Nat) (h : ∀ s ∈ f.steps, s.slabs.length = m) :
+    (CloudRain.records f).head? = some (f.desc ++ [f.nx, f.ny, f.nz]) ∧
+    (CloudRain.records f).length = 1 + f.steps.length * (1 + m) := by
+  refine ⟨rfl, ?_⟩
+  simp only [CloudRain.records, List.length_cons]
+  have : ∀ (l : List CloudRain.CStep), (∀ s ∈ l, s.slabs.length = m) →
+      ((l.map (fun s => [s.time, s.date] :: s.slabs)).flatten).length = l.length * (1 + m) := by
+    intro l
+    induction l with
+    | nil => intro _; simp
+    | cons a as ih =>
+      intro hl
+      simp only [List.map_cons, List.flatten_cons, List.length_append, List.length_cons, hl a (by simp),
+        ih (fun x hx => hl x (by simp [hx]))]
+      rw [Nat.succ_mul]
+      omega
+  rw [this f.steps h]
+  omega
+
 end Props.C09
